@@ -64,7 +64,12 @@ func onlineUsed(op Op, rg int32) (used int64, present bool) {
 		}
 		for _, c := range m.containers() {
 			if !c.Offline {
-				used += int64(c.Vol)
+				if c.Vol == 0 {
+					// a container that reports its usage as uplink and downlink volume only (totalVolume is optional)
+					used += int64(c.Up) + int64(c.Down)
+				} else {
+					used += int64(c.Vol)
+				}
 				present = true
 			}
 		}
@@ -464,6 +469,15 @@ func (sc acctScenario) alphabet(disciplined bool) func(info json.RawMessage, dep
 						mus := mkMUs(sc.reqs[0])
 						second := MU{RG: mus[0].RG, Req: sc.reqs[0], Conts: []Cont{{Vol: 0, Seq: seq + 65}}}
 						ops = append(ops, Op{K: "update", S: si, MUs: append(mus, second), Seq: seq})
+					}
+					if us == "all" && sc.split {
+						// the usage reported as uplink and downlink volume, without a total
+						mus := mkMUs(sc.reqs[0])
+						for i := range mus {
+							c := &mus[i].Conts[0]
+							c.Up, c.Down, c.Vol = c.Vol/3, c.Vol-c.Vol/3, 0
+						}
+						ops = append(ops, Op{K: "update", S: si, MUs: mus, Seq: seq})
 					}
 					if (us == "all" || us == "half") && (sc.extras || sc.split) {
 						// a pure usage report: no requestedUnit member, no trigger (the usage is still consumed from the reservation)
